@@ -1047,7 +1047,7 @@ def run_sessions(run, prop, sessions, judged, label, par=core.NPROC):
             n = 0
             for sdef in chunk:
                 evs = [{"ev": "session", "id": sdef["id"]}] + sessmod.run(sdef["binary"], sdef["steps"], env=sdef.get("env"))
-                index.append((n + 1, n + len(evs), sdef))
+                index.append((n + 1, n + len(evs), sdef, [e for e in evs if e["ev"] not in ("pv", "depth", "score")][:400]))
                 n += len(evs)
                 for e in evs:
                     f.write(json.dumps(e) + "\n")
@@ -1063,10 +1063,13 @@ def run_sessions(run, prop, sessions, judged, label, par=core.NPROC):
         total += res["events"]
         for f in res["fails"]:
             if f["p"] in judged or f["p"] == "PANIC":
-                sdef = next((sd for a, b, sd in index if a <= f["line"] <= b), None)
+                hit = next(((sd, obs, a) for a, b, sd, obs in index if a <= f["line"] <= b), None)
                 rp = {"driver": "uci-session", "session": None}
-                if sdef:
+                if hit:
+                    sdef, observed, first = hit
                     rp["session"] = {"id": sdef["id"], "env": sdef.get("env", {}), "steps": sdef["steps"], "checked_build": "checked" in sdef["binary"]}
+                    rp["event_index_in_session"] = f["line"] - first + 1
+                    rp["observed_events"] = observed          # the transcript as the driver saw it (info lines left out)
                 run.violation(f, rp)
     return outs, total
 
@@ -1343,6 +1346,13 @@ def c14(tier, seed):
                 {"send": "position startpos"}, {"send": "go infinite"}, {"send": "isready"}, {"send": "ucinewgame"}, {"waitbest": 8},
                 {"send": "position fen 8/8/8/4k3/8/8/4K3/8 w - - 0 1"}, {"send": "go infinite"}, {"sleep": 1.0}, {"send": "isready"}, {"send": "stop"}, {"waitbest": 8},
                 {"send": "position startpos"}, {"send": "go infinite"}, {"quit": True}]})
+    # replies of the stdin loop while the search thread is printing: bursts of isready during searches that print
+    # hundreds of info lines a second (tiny positions)
+    for b, bn in ((binary, "rel"), (checked, "chk")):
+        for posn in ("position fen 8/8/8/4k3/8/8/4K3/8 w - - 0 1", "position fen 8/8/8/4k3/8/8/4P3/4K3 w - - 0 1", "position startpos"):
+            sessions.append({"id": "burst-%s-%s" % (bn, posn.split()[-5][:12] if " fen " in posn else "startpos"), "binary": b, "env": {}, "steps": [
+                {"send": posn}, {"send": "go infinite"}, {"burst": 1500 if quick else 6000}, {"send": "stop"}, {"waitbest": 8},
+                {"send": posn}, {"send": "go depth 40"}, {"burst": 1500 if quick else 6000}, {"send": "stop"}, {"waitbest": 8}, {"quit": True}]})
     # randomized long sessions
     for i in range(14 if quick else 120):
         sessions.append(random_session(rnd, binary if i % 3 else checked, "random-%d" % i, 120 if quick else 600, WINDOWS[i % len(WINDOWS)]))
